@@ -41,7 +41,7 @@ RangeOf(f) ==
     [] f.form = "cards" -> {{f.r0, f.r1}}           \* two explicit cards (given as card numbers)
 FormValid(f) == f.form = "dash" => DashValid(f.r0, f.r1, f.r2, f.r3)
 
-AsSets(pairs) == {{pairs[j][1], pairs[j][2]} : j \in DOMAIN pairs}
+AsSets(pairs) == {ToSetS(pairs[j]) : j \in DOMAIN pairs}
 WellFormed(pairs) == \A j \in DOMAIN pairs : Len(pairs[j]) = 2 /\ pairs[j][1] # pairs[j][2] /\ pairs[j][1] \in 0..51 /\ pairs[j][2] \in 0..51
 
 \* the identities the notation promises (evaluated on the specification's own sets for the ranks of every case)
